@@ -112,15 +112,23 @@ def s19b_same_name_wiring(ctx):
         fname = bj['def'].rsplit('::', 1)[-1]
         if fname not in ('from', 'add'):
             continue
-        b = Body(bj)
+        import inline
+        b = Body(inline.inlined(f, bj, 2))      # a private assembling helper (`from_parts(open, high, ..)`) is part of the builder
         built = None
         for bi, si, s in b.stmts():
-            if s['s'] == 'assign' and s['pl']['l'] == 0 and not s['pl']['p'] and s['rv']['r'] == 'agg' and s['rv']['kind'] == 'adt' and s['rv']['def'] in ohlcv_types:
-                built = (s, b.tree_of_rvalue(s['rv']))
+            if s['s'] == 'assign' and s['rv']['r'] == 'agg' and s['rv']['kind'] == 'adt' and s['rv']['def'] in ohlcv_types:
+                whole_ret = s['pl']['l'] == 0 and not s['pl']['p']
+                if not whole_ret:
+                    # the literal lands in a temporary that is then moved into the return place
+                    whole_ret = not s['pl']['p'] and any(pf.returns and pf.ret is not None and pf.ret[0] == 'agg' and pf.ret[1] == 'adt'
+                                                         and pf.ret[2] == s['rv']['def'] and bi in pf.path for pf in all_path_facts(b))
+                if whole_ret:
+                    built = (s, b.tree_of_rvalue(s['rv']))
         if built is None:
             continue
         seen_defs.add(bj['def'])
         n_build += 1
+        r.info.setdefault('builders', []).append(bj['def'])
         s, tree = built
         names = tree[4]
         # every way out of the builder returns the candle it builds: a path that hands back an operand unchanged drops the other operand's
